@@ -82,17 +82,18 @@ Variable H : Z -> bytes -> bytes.
 Definition request_imprint (q : request) : bytes :=
   if imprint_is_hashed (q_legacy q) then H (q_alg q) (q_sig q) else q_sig q.
 
+Definition content_len (t : stamp) : Z := if st_has_content t then 1 else 0.
+Definition has_nonce (t : stamp) : bool := match st_nonce t with Some _ => true | None => false end.
+Definition nonce_val (t : stamp) : Z := match st_nonce t with Some n => n | None => 0 end.
+
 (* SanityCheckToken: the four checks, executed in the order srcgen read from the source *)
 Definition sanity_step (q : request) (t : stamp) (k : Z) : result unit :=
   if k =? 0 then       (* psd.Content.Verify(nil, false): content must be present, signature must verify *)
     (if st_has_content t && st_sig_ok t then Ok tt else Err E_SIG)
-  else if k =? 1 then  (* unpackTokenInfo: infobytes[0] panics on empty content *)
-    (if negb (st_has_content t) then Panic P_INDEX else if st_info_ok t then Ok tt else Err E_INFO)
-  else if k =? 2 then  (* req.Nonce.Cmp(info.Nonce): info.Nonce is a nil *big.Int when the token has no nonce *)
-    match st_nonce t with
-    | None => Panic P_NIL
-    | Some n => if nonce_mismatch (q_nonce q) n then Err E_NONCE else Ok tt
-    end
+  else if k =? 1 then  (* unpackTokenInfo: empty content is an error (checked before infobytes[0] is read) *)
+    (if info_empty (content_len t) then Err E_INFO else if st_info_ok t then Ok tt else Err E_INFO)
+  else if k =? 2 then  (* the request always carries a nonce (NewRequest); a token without one counts as a mismatch *)
+    (if nonce_mismatch true (has_nonce t) (q_nonce q) (nonce_val t) then Err E_NONCE else Ok tt)
   else if k =? 3 then
     (if imprint_mismatch (st_hashed t) (request_imprint q) then Err E_IMPRINT else Ok tt)
   else Ok tt.
@@ -191,7 +192,7 @@ Definition imprint_verify (t : stamp) (data : bytes) : result unit :=
 Definition verify_stamp (t : stamp) (data : bytes) : result Z :=
   if st_form t =? 0 then
     if signer_count_bad (st_nsigners t) then Err E_NSIGNERS
-    else if negb (st_has_content t) then Panic P_INDEX          (* unpackTokenInfo before any verification *)
+    else if info_empty (content_len t) then Err E_INFO         (* unpackTokenInfo runs before any verification *)
     else if negb (st_info_ok t) then Err E_INFO
     else _ <- imprint_verify t data ;;
          if negb (st_sig_ok t) then Err E_SIG
